@@ -695,6 +695,8 @@ class _FunctionAnalysis:
                 out.add(("cont", frozenset([("stat", b[1])])))
         elif k == "classof":
             pass
+        elif k in ("tab", "in", "cont") and attr in MUTATORS:
+            out.add(("bound", b, attr))  # f = H._node.clear; f()
         return out
 
     def _find_property(self, b, attr):
@@ -727,6 +729,19 @@ class _FunctionAnalysis:
         return res
 
     def ev_Subscript(self, node, env):
+        if isinstance(node.slice, ast.Constant) and isinstance(node.slice.value, str):
+            # vars(H)["_node"] / H.__dict__["_node"]: the attribute itself
+            refl = None
+            if isinstance(node.value, ast.Call) and isinstance(node.value.func, ast.Name) and node.value.func.id == "vars" and node.value.args:
+                refl = node.value.args[0]
+            elif isinstance(node.value, ast.Attribute) and node.value.attr == "__dict__":
+                refl = node.value.value
+            if refl is not None:
+                out = set()
+                for b in self.eval(refl, env):
+                    out |= self.attr_of(b, node.slice.value, node, env)
+                if out:
+                    return frozenset(out)
         ps = self._pseudo(node)
         if ps is not None and ps in env and any(x[0] == "cont" for x in env.get(node.value.id, ())):
             return env[ps]
@@ -925,10 +940,22 @@ class _FunctionAnalysis:
                 out.add(("net", ("new", node.lineno, node.col_offset), cn))
             elif v[0] == "stat":
                 out.add(v)
+            elif v[0] == "bound":
+                r = self.container_method(v[1], v[2], node, self._plain_args(argvals))
+                if r:
+                    out |= set(r)
         return out
 
     def _plain_args(self, argvals):
-        return [a[1] if isinstance(a, tuple) and a and a[0] == "*" else a for a in argvals]
+        out = []
+        for a in argvals:
+            if isinstance(a, tuple) and a and a[0] == "*":
+                # f(*xs): any following positional parameter may receive any element of xs
+                el = frozenset(self.elements(a[1]))
+                out.extend([el] * 4)
+            else:
+                out.append(a)
+        return out
 
     def call_name(self, name, node, argvals, kwvals, env):
         args = self._plain_args(argvals)
@@ -958,6 +985,31 @@ class _FunctionAnalysis:
             return frozenset([("cont", frozenset())])
         if name == "copy":
             return self._shallow_copy(args[0] if args else frozenset())
+        if name in ("dict", "OrderedDict") and args:
+            # dict(mapping) shares the mapping's values
+            out = set(self._shallow_copy(args[0]))
+            return frozenset(out) if out else frozenset([("cont", frozenset())])
+        if name in ("map", "filter") and node.args:
+            # the callable is applied to every element (its side effects happen; a lazy map that is never consumed is
+            # over-approximated as consumed)
+            elem_args = [frozenset(self.elements(a)) for a in args[1:]]
+            f0 = node.args[0]
+            res = set()
+            if isinstance(f0, ast.Lambda):
+                e2 = dict(env)
+                for p, v in zip([a.arg for a in f0.args.args], elem_args):
+                    e2[p] = v
+                res |= set(self.eval(f0.body, e2))
+            elif isinstance(f0, ast.Name) and f0.id not in env:
+                tgt = self.repo.resolve_name(self.fn, self.fn.module, f0.id)
+                if isinstance(tgt, FunctionInfo):
+                    res |= set(self.apply_call(tgt, None, elem_args, {}, node, env))
+            elems = set(res) if name == "map" else set()
+            for a in args[1:]:
+                elems |= self._iter_elems_for_copy(a)
+            return frozenset([("cont", frozenset(x for x in elems if self._is_aliasing(x) or x[0] in ("cont", "view", "stat")))])
+        if name == "vars" and args:
+            return frozenset(("vars", v[1], v[2] if len(v) > 2 else None) for v in args[0] if v[0] in ("net", "obj"))
         if name in FRESH_BUILTINS:
             elems = set()
             for a in args:
@@ -1340,6 +1392,13 @@ class _FunctionAnalysis:
         m = f.attr
         out = set()
         raises = False
+        if isinstance(f.value, ast.Name) and f.value.id in ("dict", "set", "list", "defaultdict") and f.value.id not in env and m in MUTATORS and args:
+            # dict.clear(x) / set.add(s, v): the method applied to its first argument
+            for b in args[0]:
+                r = self.container_method(b, m, node, args[1:])
+                if r:
+                    out |= set(r)
+            return frozenset(out), False
         # module-qualified function?  (np.x, nx.x, xgi.x, convert.x, random.x ...)
         if isinstance(f.value, (ast.Name, ast.Attribute)):
             root = f.value
